@@ -130,6 +130,38 @@ type rdTwoBad2 struct { // return error first (nested, depth first)
 type rdBothBad struct { // one field with both defects: the return check comes first
 	A func(x int) int
 }
+// an embedded (anonymous) struct: its function fields are reached through the embedded field's name
+type RdBase struct {
+	F fOK
+	G fE
+}
+type rdEmbedded struct {
+	RdBase
+	Own fE
+	Tail struct {
+		RdBase
+		H fOK
+	}
+}
+
+// first parameters: `any` is not a context; an interface wider than context.Context is one
+type traceCtx interface {
+	context.Context
+	TraceID() string
+}
+type tctx struct{ context.Context }
+
+func (tctx) TraceID() string { return "t" }
+
+type rdAnyFirst struct {
+	Ok fE
+	N  struct{ A func(x any) error }
+}
+type rdWiderCtx struct {
+	Ok fE
+	T  func(ctx traceCtx, x int) (int, error)
+}
+
 type rdChan struct {
 	C  chan int
 	M  map[string]fE
@@ -206,6 +238,9 @@ func runRemote[R any](name string) RemoteCase {
 				}
 				cctx, ccancel := context.WithCancel(context.Background())
 				args := []reflect.Value{reflect.ValueOf(cctx)}
+				if !reflect.TypeOf(cctx).AssignableTo(f.Type().In(0)) {
+					args = []reflect.Value{reflect.ValueOf(tctx{cctx})}
+				}
 				for k := 1; k < f.Type().NumIn(); k++ {
 					args = append(args, reflect.Zero(f.Type().In(k)))
 				}
@@ -282,6 +317,25 @@ func (l *lv2) After(ctx context.Context) error             { l.r.hit("After"); r
 func (f lv2F) P(ctx context.Context) error                 { f.r.hit("First.P"); return nil }
 func (l *lv2L) Q(ctx context.Context, x int) (int, error)  { l.r.hit("Last.Q"); return x, nil }
 func (i *lv2I) R(ctx context.Context) error                { i.r.hit("Last.In.R"); return nil }
+
+type lvE struct {
+	r      *pathRec
+	RdBase lvEB
+	Tail   *lvET
+}
+type lvEB struct {
+	r   *pathRec
+	pre string
+}
+type lvET struct {
+	r      *pathRec
+	RdBase lvEB
+}
+
+func (l *lvE) Own(ctx context.Context) error                 { l.r.hit("Own"); return nil }
+func (b lvEB) F(ctx context.Context, x int) (int, error)     { b.r.hit(b.pre + "RdBase.F"); return x, nil }
+func (b lvEB) G(ctx context.Context) error                   { b.r.hit(b.pre + "RdBase.G"); return nil }
+func (t *lvET) H(ctx context.Context, x int) (int, error)    { t.r.hit("Tail.H"); return x, nil }
 
 func runRemoteE2E[R any](name string, local any, rec *pathRec) RemoteCase {
 	var zero R
@@ -361,8 +415,9 @@ func hasUnusableFuncParam(t reflect.Type) bool {
 }
 
 func RunRemotes() []RemoteCase {
-	r1, r2 := newPathRec(), newPathRec()
+	r1, r2, r3 := newPathRec(), newPathRec(), newPathRec()
 	e2e := []RemoteCase{
+		runRemoteE2E[rdEmbedded]("embedded/e2e", &lvE{r: r3, RdBase: lvEB{r3, ""}, Tail: &lvET{r: r3, RdBase: lvEB{r3, "Tail."}}}, r3),
 		runRemoteE2E[rdValid1]("valid1/e2e", &lv1{r: r1, N: &lv1N{r: r1, D: lv1D{r1}}}, r1),
 		runRemoteE2E[rdValid2]("valid2/e2e", &lv2{r: r2, First: lv2F{r2}, Last: &lv2L{r: r2, In: &lv2I{r2}}}, r2),
 	}
@@ -372,6 +427,7 @@ func RunRemotes() []RemoteCase {
 		runRemote[rdBadRetNoErr1]("badret-noerr1"), runRemote[rdBadArgs0]("badargs0"), runRemote[rdBadArgsNoCtx]("badargs-noctx"),
 		runRemote[rdTwoBad]("twobad"), runRemote[rdTwoBad2]("twobad2"), runRemote[rdBothBad]("bothbad"), runRemote[rdChan]("chan-map-ptr"),
 		runRemote[sysRemote]("sysremote"), runRemote[epRemote]("epremote"),
+		runRemote[rdEmbedded]("embedded"), runRemote[rdAnyFirst]("anyfirst"), runRemote[rdWiderCtx]("widerctx"),
 	}
 	out = append(out, e2e...)
 	sort.Slice(out, func(i, j int) bool { return out[i].Def < out[j].Def })
